@@ -179,10 +179,10 @@ class Report:
                 flush=True,
             )
         for i, rec in enumerate(viol_new):
-            path = os.path.join(rdir, f"{self.pid}-{i}.json")
+            path = os.path.join(rdir, f"{self.pid}-{os.environ.get('VERIF_REPLAY_TAG', '')}{i}.json")
             with open(path, "w") as f:
                 json.dump(
-                    {"property": self.pid, "tier": self.tier, "seed": self.seed, **rec},
+                    {"property": self.pid, "tier": self.tier, "seed": self.seed, "python_optimize": bool(sys.flags.optimize), **rec},
                     f,
                     indent=1,
                 )
@@ -250,7 +250,7 @@ class Report:
                 "exhaustive": exhaustive and not self.internal_errors,
                 "explanation": self.explanation,
                 "bounds": jsonable(self.bounds),
-                "process_environment": {"TZ": os.environ.get("TZ"), "LC_ALL": os.environ.get("LC_ALL"), "PYTHONHASHSEED": os.environ.get("PYTHONHASHSEED")},
+                "process_environment": {"python_optimize": bool(sys.flags.optimize), "TZ": os.environ.get("TZ"), "LC_ALL": os.environ.get("LC_ALL"), "PYTHONHASHSEED": os.environ.get("PYTHONHASHSEED")},
                 "subchecks": subs,
                 "known_findings_seen": [r["sig"] for r, _ in viol_known],
                 "new_violation_signatures": [r["sig"] for r in viol_new],
